@@ -27,7 +27,7 @@ def _cmp(what, native_fn, engine_fn, *args):
 
 def seq_methods():
     n = 0
-    B = [b'', b'a', b'\n', b'a\nb', b'\r\n', b' a ', b'ab\r\nab', b'\x00\xff', b'  ', b'a=b, c=d', b'\t x\n']
+    B = [b'', b'a', b'\n', b'a\nb', b'\r\n', b' a ', b'ab\r\nab', b'\x00\xff', b'  ', b'a=b, c=d', b'\t x\n', b'a\rb\r\n\nc', b'\r\r\n', b'x\r']
     subs = [b'a', b'\n', b'\r\n', b'ab', b', ', b'=', b' ']
     for s in B:
         for sub in subs:
@@ -41,6 +41,10 @@ def seq_methods():
             n += _cmp('replace', lambda x, y: x.replace(y, b'Z'), lambda x, y: lift(x).replace(y, b'Z'), s, sub)
             n += _cmp('rfind', lambda x, y: x.rfind(y), lambda x, y: lift(x).rfind(y), s, sub)
             n += _cmp('partition', lambda x, y: list(x.partition(y)), lambda x, y: list(lift(x).partition(y)), s, sub)
+        n += _cmp('splitlines', lambda x: x.splitlines(), lambda x: lift(x).splitlines() if len(x) else [], s)
+        n += _cmp('splitlinesK', lambda x: x.splitlines(True), lambda x: lift(x).splitlines(True) if len(x) else [], s)
+        n += _cmp('rsplit1', lambda x: x.rsplit(b'a', 1), lambda x: lift(x).rsplit(b'a', 1), s)
+        n += _cmp('rpartition', lambda x: list(x.rpartition(b'\n')), lambda x: list(lift(x).rpartition(b'\n')), s)
         n += _cmp('strip', lambda x: x.strip(), lambda x: lift(x).strip(), s)
         n += _cmp('lstrip', lambda x: x.lstrip(), lambda x: lift(x).lstrip(), s)
         n += _cmp('rstrip', lambda x: x.rstrip(), lambda x: lift(x).rstrip(), s)
@@ -54,6 +58,7 @@ def seq_methods():
         n += _cmp('s.strip', lambda x: x.strip(), lambda x: lift(x).strip(), s)
         n += _cmp('s.find', lambda x: x.find('\n'), lambda x: lift(x).find('\n'), s)
         n += _cmp('s.split', lambda x: x.split('\n'), lambda x: lift(x).split('\n'), s)
+        n += _cmp('s.splitlines', lambda x: x.splitlines(True), lambda x: lift(x).splitlines(True) if len(x) else [], s)
     return n
 
 
